@@ -33,8 +33,10 @@ Hand-written: the ORDER in which the blocks follow each other in the loop body a
 `rowsI`, `renderBodyI` glue the interpreted blocks in source order; the loop headers `for col := 0; col <
 len(row); col += 1` and `for row := range …` with `reposition = true; dirty := 0` are in that glue) — tied to
 the source by `cell_loop_order` (the top-level statements of the loop body, read by the interpreter, are exactly
-that sequence, and the five blocks concatenated ARE the loop body) and by `Props.C01Facts.facts_render`, and the inner lines of the colour / attribute / underline
-blocks (executed as wholes; their tables and order are interpreted by `attrToks_from_source` / `penDelta_order`).
+that sequence, and the five blocks concatenated ARE the loop body) and by `Props.C01Facts.facts_render`.  Inside the
+written-cell path the colour / underline blocks run as single statements (`prune`); `fg_body_eq_model`, `bg_body_eq_model`,
+`ul_body_eq_model`, `ulStyle_body_eq_model`, `macro_atoms_are_blocks` show those statements ARE the blocks executed line
+by line (`switch len(ps)` …); the attribute block is interpreted through its tables (`attrToks_from_source`).
 -/
 import VaxisModel.Model.RenderInterp
 import VaxisModel.Model.RenderSixel
